@@ -298,10 +298,16 @@ func ruleA5(c *Ctx, id string) {
 
 // ---------------------------------------------------------------- C06.L2 / L3 / L5, C11.V6, C05.F3
 
-func ruleL2(c *Ctx, id string) {
+func ruleL2(c *Ctx, id string) { ruleL2f(c, id, nil, 75) }
+
+// ruleL2f: L2 restricted to the entry points accepted by keep (nil: all).
+func ruleL2f(c *Ctx, id string, keep func(entry string) bool, floor int) {
 	R, P := c.R, c.P
-	R.Rule(id, "every transaction ends on every path: no end state of an entry point leaves a transaction live while it holds inode locks or allocations; no terminator or acquisition on a nil transaction", 75)
+	R.Rule(id, "every transaction ends on every path: no end state of an entry point leaves a transaction live while it holds inode locks or allocations; no terminator or acquisition on a nil transaction", floor)
 	t := c.tsPreamble(id)
+	if keep == nil {
+		keep = func(string) bool { return true }
+	}
 	type agg struct {
 		ok  bool
 		why string
@@ -309,6 +315,9 @@ func ruleL2(c *Ctx, id string) {
 	}
 	res := map[string]*agg{}
 	for _, sn := range t.Snaps {
+		if !keep(sn.Entry) {
+			continue
+		}
 		key := fmt.Sprintf("%s|return#%d", sn.Entry, retOrdinal(sn.Ret))
 		a := res[key]
 		if a == nil {
@@ -332,11 +341,14 @@ func ruleL2(c *Ctx, id string) {
 		R.Check(a.ok, id, k, a.pos, "no transaction is leaked at this return", "all transactions terminated or untouched", a.why+": its inode locks are never released, every later request on those inodes blocks for ever")
 	}
 	for _, e := range sortedEvents(t, "term") {
-		if e.Extra["nil"] == "1" {
+		if e.Extra["nil"] == "1" && keep(e.Entry) {
 			R.Fail(id, FuncName(e.Fn)+"|nil transaction|"+e.Entry, P.Pos(e.Pos), "terminators and acquisitions are never applied to a nil transaction", fmt.Sprintf("%s (entry %s, stack %s)", e.Detail, e.Entry, e.Stack))
 		}
 	}
 	for _, e := range sortedEvents(t, "begin") {
+		if !keep(e.Entry) {
+			continue
+		}
 		if e.Bad {
 			R.Fail(id, FuncName(e.Fn)+"|Begin over live txn", P.Pos(e.Pos), "a Begin site is not re-executed while its previous transaction holds locks", e.Detail)
 		} else {
